@@ -56,6 +56,7 @@ type base struct {
 	chunks    [][]byte // encrypted chunks, slices of file
 
 	modelAgrees bool // the reference accepts the unmodified file with the same plaintext
+	armored     bool // file is ASCII armor; it is read through armor.NewReader
 }
 
 func (b *base) head() []byte    { return b.file[:b.hdrLen+nonceLen] } // header + nonce
@@ -212,6 +213,8 @@ func main() {
 	lap("resplit")
 	m.stageCrash(&jobs)
 	lap("crash")
+	m.stageArmor(&jobs)
+	lap("armor")
 
 	// longest first, stable
 	sort.SliceStable(jobs, func(i, j int) bool { return jobs[i].cost > jobs[j].cost })
